@@ -6,6 +6,7 @@ import (
 	"fmt"
 	"go/token"
 	"go/types"
+	"sort"
 	"strings"
 
 	"golang.org/x/tools/go/ssa"
@@ -101,6 +102,30 @@ func (x *Exec) evalInstr(fr *Frame, st *State, in ssa.Value) (Val, bool) {
 		xs := x.value(fr, st, in.X)
 		iv := x.value(fr, st, in.Index)
 		if mt, ok := in.X.Type().Underlying().(*types.Map); ok {
+			if strings.HasPrefix(xs.Org, "global:") {
+				key := "G_" + sanitize(strings.ReplaceAll(strings.TrimPrefix(xs.Org, "global:"), ".", "_"))
+				if cm, ok := x.L.constMaps[key]; ok && x.te.StrSort == "String" && isStringType(mt.Key()) {
+					// a constant table built by the package initialiser
+					var ks []string
+					for k := range cm {
+						ks = append(ks, k)
+					}
+					sort.Strings(ks)
+					val := x.te.Zero(mt.Elem())
+					present := False
+					for _, k := range ks {
+						c := Eq(iv.T, StrLit(k))
+						val = Ite(c, IntLit(cm[k]), val)
+						present = Or(present, c)
+					}
+					x.funcsUsed["struct:constant table "+strings.TrimPrefix(xs.Org, "global:")+" read off the package initialiser (never updated)"] = true
+					v := Val{T: x.nameTerm(st, "tbl", val), Typ: mt.Elem()}
+					if in.CommaOk {
+						return Val{Typ: in.Type(), Tup: []Val{v, {T: x.nameTerm(st, "tblok", present), Typ: types.Typ[types.Bool]}}}, true
+					}
+					return v, true
+				}
+			}
 			hk, hs, vk, vs := x.mapComps(mt)
 			has := x.heapGet(st, hk, hs)
 			val := x.heapGet(st, vk, vs)
@@ -263,7 +288,56 @@ func (x *Exec) makeInterface(st *State, v Val, from, to types.Type) Val {
 		st.assume(Term{fmt.Sprintf("(= (%s %s) %s)", un, payload.S, vt.S), "Bool"})
 	}
 	cv := v
-	return Val{T: mk("Iface", "mk_Iface", IntLit(int64(tag)), payload), Typ: to, Dyn: &cv}
+	res := Val{T: mk("Iface", "mk_Iface", IntLit(int64(tag)), payload), Typ: to, Dyn: &cv}
+	x.ifaceObserverFacts(st, res, v, from)
+	return res
+}
+
+// ifaceObserverFacts: for the interface observers declared iface-pure, the
+// value im_M(iface) of an interface built from a concrete value obeys the
+// postconditions of the concrete method's contract (error values are not
+// mutated after they have been created).
+func (x *Exec) ifaceObserverFacts(st *State, iface Val, v Val, from types.Type) {
+	if len(x.cs.IfacePure) == 0 || x.specDepth > 0 {
+		return
+	}
+	ms := x.L.prog.MethodSets.MethodSet(from)
+	for i := 0; i < ms.Len(); i++ {
+		sel := ms.At(i)
+		name := sel.Obj().Name()
+		if !x.cs.IfacePure[name] {
+			continue
+		}
+		f := x.L.prog.MethodValue(sel)
+		if f == nil || f.Signature.Params().Len() != 0 || f.Signature.Results().Len() != 1 {
+			continue
+		}
+		ctr := x.contractFor(f)
+		if ctr == nil || len(ctr.Ensures) == 0 || len(f.Params) != 1 {
+			continue
+		}
+		recv := v
+		if _, isPtr := f.Params[0].Type().Underlying().(*types.Pointer); isPtr {
+			if _, fromPtr := from.Underlying().(*types.Pointer); !fromPtr {
+				continue
+			}
+		}
+		im := x.uninterp(st, "im_"+name, []Val{iface}, f.Signature.Results().At(0).Type())
+		env := &Env{x: x, st: st, vars: map[string]Val{f.Params[0].Name(): recv}, pkg: x.pkgOf(f), results: []Val{im}, hasRes: true}
+		var errs []string
+		env.errs = &errs
+		for _, c := range ctr.Ensures {
+			if strings.Contains(c.Src, "calls") {
+				continue
+			}
+			t := x.evalBool(env, c.Expr)
+			if len(errs) == 0 {
+				st.assume(t)
+			}
+			errs = nil
+		}
+		x.funcsUsed["assume:error values are immutable: an interface observer of a value built here returns what the concrete method's contract says"] = true
+	}
 }
 
 func (x *Exec) unboxed(st *State, iv Term, T types.Type) Term {
@@ -493,6 +567,9 @@ func (x *Exec) bytesToString(st *State, b Term) Term {
 	}
 	t := Term{fmt.Sprintf("(%s %s %s)", fn, sliceArr(b).S, sliceLen(b).S), ss}
 	st.assume(Eq(x.te.StrLen(t), sliceLen(b)))
+	if ss == "String" {
+		st.assume(Implies(Eq(sliceLen(b), IntLit(0)), Eq(t, StrLit(""))))
+	}
 	return t
 }
 
